@@ -52,7 +52,7 @@ pub fn positions(len: usize, boundaries: &[usize], max: usize) -> Vec<usize> {
     }
     let mut take = vec![false; len];
     let mut n = 0usize;
-    let mut mark = |p: usize, take: &mut Vec<bool>, n: &mut usize| {
+    let mark = |p: usize, take: &mut Vec<bool>, n: &mut usize| {
         if p < len && !take[p] {
             take[p] = true;
             *n += 1;
